@@ -43,12 +43,14 @@ pub struct Profile {
 	pub deadline_sweep: bool,
 	/// run only this kind of deadline scenario
 	pub deadline_kind: Option<u64>,
+	/// on-chain scenarios in which the other party's manager is a block behind its monitor (see World::late_update)
+	pub late_update: bool,
 	/// every node also feeds a real MonitorUpdatingPersister over a recording store (C19 c)
 	pub mup_shadow: bool,
 }
 impl Profile {
 	pub fn for_prop(prop: &str, thorough: bool) -> Profile {
-		let base = Profile { prop: prop.to_string(), steps: if thorough { 1500 } else { 600 }, nodes: 2, allow_async: false, allow_deferred: false, allow_disconnect: true, allow_fee_updates: true, allow_ticks: true, coop_close_at_end: true, multi_hop: false, mid_settles: true, allow_restart: false, allow_force_close: false, persist_manager_often: false, parallel: false, pay_workload: false, onchain: false, chain_equiv: false, reorgs: false, deadline_kind: None, deadline_sweep: false, mup_shadow: false };
+		let base = Profile { prop: prop.to_string(), steps: if thorough { 1500 } else { 600 }, nodes: 2, allow_async: false, allow_deferred: false, allow_disconnect: true, allow_fee_updates: true, allow_ticks: true, coop_close_at_end: true, multi_hop: false, mid_settles: true, allow_restart: false, allow_force_close: false, persist_manager_often: false, parallel: false, pay_workload: false, onchain: false, chain_equiv: false, reorgs: false, deadline_kind: None, late_update: false, deadline_sweep: false, mup_shadow: false };
 		match prop {
 			"C01" => base,
 			"C05" => Profile { allow_async: true, allow_restart: true, allow_force_close: true, ..base },
@@ -880,6 +882,7 @@ fn drive(sim: &mut Sim, prof: &Profile, rng: &mut Rng, rep: &mut Report, ctype: 
 		sim.w.step += 1;
 		sim.w.chain_equiv = prof.chain_equiv;
 		sim.w.reorgs = prof.reorgs;
+		sim.w.late_update = prof.late_update;
 		sim.w.justice_focus = prof.prop == "C06";
 		crate::onchain::phase(sim, rng, rep)?;
 		sim.dispatch(rep);
